@@ -512,7 +512,8 @@ func tooBig(bad []byte, lf *leaf) bool {
 var requiredClasses = func() []string {
 	req := []string{"mode:get", "mode:pipeline", "mode:inconsistent", "asserted", "unasserted:all-hops-skipverify", "effective",
 		"changed-but-still-decodes", "result:error", "result:good-data", "hops:server-skip+client-verify", "http:server-side-conversion",
-		"repair:demanded", "repair:replaced", "held-rechecked", "concurrent-first-call", "digest:" + digestWeakPrefix, "digest:" + digestWeakSuffix,
+		"repair:demanded", "repair:replaced", "held-rechecked", "consumer:retry-after-refusal", "consumer:retry-after-refusal:same-size-predecessor",
+		"consumer:retry-after-refusal:" + cReadSeeker, "consumer:retry-after-refusal:" + cSparse, "concurrent-first-call", "digest:" + digestWeakPrefix, "digest:" + digestWeakSuffix,
 		"consumer:" + cAssemble, "consumer:" + cReadSeeker, "consumer:" + cUnTarIndex, "consumer:" + cSparse,
 		"pipeline:" + cAssemble + ":poisoned-fetch", "pipeline:" + cReadSeeker + ":poisoned-fetch", "pipeline:" + cUnTarIndex + ":poisoned-fetch", "pipeline:" + cSparse + ":poisoned-fetch",
 		"inconsistent:" + cAssemble, "inconsistent:" + cReadSeeker, "inconsistent:" + cUnTarIndex, "inconsistent:" + cSparse,
@@ -573,4 +574,6 @@ func TestProp(t *testing.T) { hx.Prop(t, spec) }
 var (
 	errHang  = errors.New("consumer did not return")
 	errPanic = errors.New("consumer panicked")
+	// errRefusedServed: a retry after a refused read delivered bytes that are not the blob's
+	errRefusedServed = errors.New("refused chunk served on retry")
 )
